@@ -1,21 +1,209 @@
-import Juniper.Model.PQ
+import Juniper.Proofs.HeapOps
 /-!
-# C05 — xheap.Heap and PriorityQueue always hand out a minimum; key map stays exact (property theorems)
+# C05 — xheap.Heap and PriorityQueue always hand out a minimum; key map stays exact
+
+Property theorems about the executable model `Juniper.Model.Heap` / `Juniper.Model.PQ`, whose index
+arithmetic, loop guards, comparison orientation and statement-presence facts are regenerated from
+`internal/heap/heap.go` and `container/xheap/xheap.go` on every run. `less` is any strict weak order
+(`Spec.Heap.StrictWeak`: irreflexive, transitive, incomparability transitive — the contract of
+`xsort.Less`); a `compare`-constructed order is `fun a b => compare a b < 0`.
+Helper lemmas: `Juniper/Proofs/Heap*.lean`, `Juniper/Proofs/PQ*.lean`.
 -/
 namespace Juniper.Props.C05
-open Juniper.Gen.Heap Juniper.Model.Heap
+open Juniper.Gen.Heap Juniper.Model.Heap Juniper.Spec.Heap Juniper.Proofs.Heap
+
+variable {α : Type}
+
+/-- a three-element order used by the non-vacuity examples: natural order on `Nat` -/
+private def ltN : Nat → Nat → Bool := fun a b => decide (a < b)
+
+private theorem ltN_sw : StrictWeak ltN :=
+  ⟨by intro a; simp [ltN], by intro a b c; simp [ltN]; omega, by intro a b c; simp [ltN]; omega⟩
+
+/-! ## the generated index arithmetic -/
 
 /-- The generated `parent` / `children` are the usual array-heap index maps. -/
 theorem parent_children_spec (i : Nat) :
-    parentN (leftN i) = i ∧ parentN (rightN i) = i ∧ leftN i = 2 * i + 1 ∧ rightN i = 2 * i + 2 := by
-  simp only [parentN, leftN, rightN, upParent, downChildren, parent, children]
-  have h1 : ((((i : Int) * 2 + 1).toNat : Nat) : Int) = (i : Int) * 2 + 1 := by omega
-  have h2 : ((((i : Int) * 2 + 2).toNat : Nat) : Int) = (i : Int) * 2 + 2 := by omega
-  rw [h1, h2]
-  refine ⟨?_, ?_, by omega, by omega⟩
-  · have : ((i : Int) * 2 + 1 - 1) = (i : Int) * 2 := by omega
-    rw [this, Int.mul_tdiv_cancel _ (by decide)]; simp
-  · have : ((i : Int) * 2 + 2 - 1) = (i : Int) * 2 + 1 := by omega
-    rw [this, Int.tdiv_eq_ediv_of_nonneg (by omega)]; omega
+    parentN i = (i - 1) / 2 ∧ leftN i = 2 * i + 1 ∧ rightN i = 2 * i + 2 ∧
+    parentN (leftN i) = i ∧ parentN (rightN i) = i := by
+  refine ⟨parentN_eq i, leftN_eq i, rightN_eq i, ?_, ?_⟩
+  · rw [leftN_eq, parentN_eq]; omega
+  · rw [rightN_eq, parentN_eq]; omega
+
+example : parentN 6 = 2 ∧ leftN 2 = 5 ∧ rightN 2 = 6 := by decide
+
+/-! ## Heap: representation invariant preserved, multiset preserved -/
+
+/-- `New`: bottom-up heapify establishes the heap order for any initial slice. -/
+theorem heapify_inv {less : α → α → Bool} (sw : StrictWeak less) (initial : List α) :
+    HeapInv less (new less initial).1.a := new_heapInv sw initial
+
+/-- `New` holds exactly the initial items. -/
+theorem heapify_perm (less : α → α → Bool) (initial : List α) :
+    (new less initial).1.a.Perm initial := new_perm less initial
+
+example : (new ltN [5, 3, 4, 1, 1, 2]).1.a = [1, 1, 2, 3, 5, 4] := by decide
+
+theorem push_inv {less : α → α → Bool} (sw : StrictWeak less) (h : Heap α) (x : α)
+    (hh : HeapInv less h.a) : HeapInv less (push less h x).1.a := push_heapInv sw h x hh
+
+theorem push_perm (less : α → α → Bool) (h : Heap α) (x : α) :
+    (push less h x).1.a.Perm (x :: h.a) := Juniper.Proofs.Heap.push_perm less h x
+
+example : (push ltN ⟨[1, 3, 2], 0⟩ 0).1.a = [0, 1, 2, 3] := by decide
+
+theorem pop_inv {less : α → α → Bool} (sw : StrictWeak less) {h h' : Heap α} {x : α} {notes : List (Note α)}
+    (hh : HeapInv less h.a) (hp : pop less h = some (h', x, notes)) : HeapInv less h'.a :=
+  pop_heapInv sw hh hp
+
+/-- `Pop` removes exactly the item it returns. -/
+theorem pop_perm {less : α → α → Bool} {h h' : Heap α} {x : α} {notes : List (Note α)}
+    (hp : pop less h = some (h', x, notes)) : (x :: h'.a).Perm h.a := Juniper.Proofs.Heap.pop_perm hp
+
+example : (pop ltN ⟨[1, 1, 2, 3, 5, 4], 7⟩).map (fun r => (r.1.a, r.2.1)) = some ([1, 3, 2, 4, 5], 1) := by decide
+
+theorem removeAt_inv {less : α → α → Bool} (sw : StrictWeak less) {h h' : Heap α} {i : Nat}
+    {notes : List (Note α)} (hh : HeapInv less h.a) (hp : removeAt less h i = some (h', notes)) :
+    HeapInv less h'.a := removeAt_heapInv sw hh hp
+
+/-- `RemoveAt(i)` removes exactly the item at `i` (first, last, leaf or inner position alike). -/
+theorem removeAt_perm {less : α → α → Bool} {h h' : Heap α} {i : Nat} {notes : List (Note α)}
+    (hp : removeAt less h i = some (h', notes)) : ∃ x, h.a[i]? = some x ∧ (x :: h'.a).Perm h.a :=
+  Juniper.Proofs.Heap.removeAt_perm hp
+
+/-- `RemoveAt` panics exactly for an index outside the array. -/
+theorem removeAt_panics_iff (less : α → α → Bool) (h : Heap α) (i : Nat) :
+    removeAt less h i = none ↔ ¬ i < h.a.length := removeAt_none_iff less h i
+
+-- inner node whose replacement must move up (4 → replaced by 1 under parent 3)
+example : (removeAt ltN ⟨[0, 3, 1, 4, 5, 2, 1], 0⟩ 3).map (·.1.a) = some [0, 1, 1, 3, 5, 2] := by decide
+-- last position
+example : (removeAt ltN ⟨[0, 3, 1], 0⟩ 2).map (·.1.a) = some [0, 3] := by decide
+
+theorem updateAt_inv {less : α → α → Bool} (sw : StrictWeak less) {h h' : Heap α} {i : Nat} {x : α}
+    {notes : List (Note α)} (hh : HeapInv less h.a) (hp : updateAt less h i x = some (h', notes)) :
+    HeapInv less h'.a := updateAt_heapInv sw hh hp
+
+/-- `UpdateAt(i, x)` replaces exactly the item at `i` by `x`. -/
+theorem updateAt_perm {less : α → α → Bool} {h h' : Heap α} {i : Nat} {x : α} {notes : List (Note α)}
+    (hp : updateAt less h i x = some (h', notes)) : ∃ y, h.a[i]? = some y ∧ (y :: h'.a).Perm (x :: h.a) :=
+  Juniper.Proofs.Heap.updateAt_perm hp
+
+theorem updateAt_panics_iff (less : α → α → Bool) (h : Heap α) (i : Nat) (x : α) :
+    updateAt less h i x = none ↔ ¬ i < h.a.length := updateAt_none_iff less h i x
+
+example : (updateAt ltN ⟨[0, 3, 1, 4, 5], 0⟩ 1 9).map (·.1.a) = some [0, 4, 1, 9, 5] := by decide
+example : (updateAt ltN ⟨[1, 3, 2, 4, 5], 0⟩ 4 0).map (·.1.a) = some [0, 1, 2, 4, 3] := by decide
+
+/-! ## Heap: what the user sees -/
+
+/-- `Peek` returns a held item that no other held item is less than. -/
+theorem peek_min {less : α → α → Bool} (sw : StrictWeak less) {h : Heap α} {x : α}
+    (hh : HeapInv less h.a) (hp : peek h = some x) : IsMin less x h.a :=
+  isMin_root sw hh (by simpa [peek, peekIdx] using hp)
+
+/-- `Pop` returns a held item that no other held item is less than. -/
+theorem pop_min {less : α → α → Bool} (sw : StrictWeak less) {h h' : Heap α} {x : α} {notes : List (Note α)}
+    (hh : HeapInv less h.a) (hp : pop less h = some (h', x, notes)) : IsMin less x h.a := by
+  obtain ⟨_, hit, _⟩ := pop_shape hp
+  exact isMin_root sw hh hit
+
+example : IsMin ltN 1 [1, 1, 2, 3] := ⟨by decide, by decide⟩
+
+/-- `Pop` on an empty heap panics, and only then. -/
+theorem pop_empty_panics (less : α → α → Bool) (h : Heap α) : pop less h = none ↔ h.a = [] :=
+  pop_none_iff less h
+
+/-- `Peek` on an empty heap panics, and only then. -/
+theorem peek_empty_panics (h : Heap α) : peek h = none ↔ h.a = [] := by
+  cases ha : h.a <;> simp [peek, peekIdx, ha]
+
+/-- `Len` is pushes (plus initial items) minus pops. -/
+theorem len_counts (less : α → α → Bool) (h : Heap α) :
+    (∀ initial : List α, len (new less initial).1 = initial.length) ∧
+    (∀ x, len (push less h x).1 = len h + 1) ∧
+    (∀ h' x notes, pop less h = some (h', x, notes) → len h' = len h - 1) := by
+  refine ⟨?_, ?_, ?_⟩
+  · intro initial
+    simp only [len, lenVal]; rw [(new_perm less initial).length_eq]
+  · intro x
+    simp only [len, lenVal]; rw [(Juniper.Proofs.Heap.push_perm less h x).length_eq]; simp
+  · intro h' x notes hp
+    have := (Juniper.Proofs.Heap.pop_perm hp).length_eq
+    simp only [len, lenVal]; simp at this; omega
+
+/-- Draining returns everything, in non-decreasing order. -/
+theorem drain_sorted {less : α → α → Bool} (sw : StrictWeak less) (f : Nat) (h : Heap α)
+    (hh : HeapInv less h.a) (hf : h.a.length ≤ f) :
+    Sorted less (drain less f h) ∧ (drain less f h).Perm h.a := by
+  induction f generalizing h with
+  | zero =>
+    have : h.a = [] := List.eq_nil_of_length_eq_zero (by omega)
+    simp [drain, Sorted, this]
+  | succ f ih =>
+    unfold drain
+    cases hp : pop less h with
+    | none =>
+      have : h.a = [] := (pop_none_iff less h).mp hp
+      simp [Sorted, this]
+    | some r =>
+      obtain ⟨h', x, notes⟩ := r
+      have hperm := Juniper.Proofs.Heap.pop_perm hp
+      have hlen := hperm.length_eq
+      simp at hlen
+      obtain ⟨hs, hpm⟩ := ih h' (pop_heapInv sw hh hp) (by omega)
+      have hmin := pop_min sw hh hp
+      refine ⟨?_, (hpm.cons x).trans hperm⟩
+      simp only [Sorted, List.pairwise_cons]
+      refine ⟨?_, hs⟩
+      intro y hy
+      exact hmin.2 y (hperm.subset (List.mem_cons_of_mem _ (hpm.subset hy)))
+
+example : drain ltN 6 (new ltN [5, 3, 4, 1, 1, 2]).1 = [1, 1, 2, 3, 4, 5] := by decide
+
+/-- Every history of `New` / `Push` / `Pop` keeps the heap order: the hypotheses of `peek_min`,
+`pop_min` and `drain_sorted` hold in every reachable state. -/
+theorem heap_reachable_inv {less : α → α → Bool} (sw : StrictWeak less) (initial : List α)
+    (ops : List (Option α)) :
+    HeapInv less (ops.foldl (fun h o => match o with
+      | some x => (push less h x).1
+      | none => match pop less h with
+        | some (h', _, _) => h'
+        | none => h) (new less initial).1).a := by
+  suffices ∀ h : Heap α, HeapInv less h.a → HeapInv less (ops.foldl (fun h o => match o with
+      | some x => (push less h x).1
+      | none => match pop less h with
+        | some (h', _, _) => h'
+        | none => h) h).a from this _ (new_heapInv sw initial)
+  induction ops with
+  | nil => intro h hh; exact hh
+  | cons o t ih =>
+    intro h hh
+    simp only [List.foldl_cons]
+    apply ih
+    cases o with
+    | some x => exact push_heapInv sw h x hh
+    | none =>
+      cases hp : pop less h with
+      | none => simpa [hp] using hh
+      | some r => obtain ⟨h', x, n⟩ := r; simpa [hp] using pop_heapInv sw hh hp
+
+/-- `less`- and `compare`-constructed heaps: `compare(a,b) < 0` of a three-way comparison consistent
+with a strict weak order is that order, so every theorem above applies to `NewCmp` as well. -/
+theorem cmp_constructed (less : α → α → Bool) (cmp : α → α → Int)
+    (hc : ∀ a b, (cmp a b < 0) ↔ less a b = true) : lessOfCmp cmp = lessOfLess less := by
+  funext a b
+  simp only [lessOfCmp, lessOfLess, newLessWrap, cmpLess]
+  cases hl : less a b with
+  | true => simpa using (hc a b).mpr hl
+  | false =>
+    have : ¬ cmp a b < 0 := fun h => by rw [(hc a b).mp h] at hl; cases hl
+    simpa using this
+
+theorem lessOfLess_eq (less : α → α → Bool) : lessOfLess less = less := by
+  funext a b; simp [lessOfLess, newLessWrap]
+
+/-- every wrapper method of `xheap.Heap` forwards to the inner heap (generated presence facts) -/
+theorem xheap_forwards : wrapperForwards = true := by decide
 
 end Juniper.Props.C05
